@@ -15,12 +15,16 @@ func manager(p int) bool { return p == pOwner || p == pAdmin }
 
 func rank(p int) int {
 	switch p {
-	case pReader, 6, 7, 8, 9: // out-of-enum values carry exactly the rights of a reader (non-None, no write, no manage)
+	case pReader:
 		return 1
 	case pWriter:
 		return 2
 	case pAdmin:
 		return 3
+	}
+	if p < 0 || p > pGuest {
+		// out-of-enum values carry exactly the rights of a reader (non-None, no write, no manage)
+		return 1
 	}
 	return 0
 }
